@@ -143,6 +143,7 @@ impl Compactor {
 			};
 
 		// Open table only if one was created
+		verif_yield!("compact.output_written");
 		let new_table = if table_created {
 			match self.open_table(new_table_id, &new_table_path) {
 				Ok(table) => Some(table),
@@ -157,8 +158,10 @@ impl Compactor {
 
 		// Update manifest - this will commit the guard on success
 		self.update_manifest(input, new_table, &mut guard)?;
+		verif_yield!("compact.manifest_switched");
 
 		self.cleanup_old_tables(input);
+		verif_yield!("compact.inputs_deleted");
 
 		Ok(())
 	}
